@@ -158,3 +158,36 @@ class Report:
             self.pid, self.tier, self.states, self.transitions, self.impl, self._vcount,
             sum(c for _, c in self.known_hit.values()), wall))
         return 1 if self._vcount else 0
+
+
+def run_isolated(fn, *args):
+    """Run fn(*args) in a forked child; returns ("ok", result) | ("exc", text) | ("crash", signal_or_exit_status).
+    Used where the code under test may crash the interpreter (memory-safety checks)."""
+    import os
+    import pickle
+    import traceback
+    r, w = os.pipe()
+    pid = os.fork()
+    if pid == 0:
+        os.close(r)
+        status = 0
+        try:
+            try:
+                payload = pickle.dumps(("ok", fn(*args)))
+            except Exception:
+                payload = pickle.dumps(("exc", traceback.format_exc()))
+            with os.fdopen(w, "wb") as f:
+                f.write(payload)
+        except BaseException:
+            status = 3
+        os._exit(status)
+    os.close(w)
+    data = b""
+    with os.fdopen(r, "rb") as f:
+        data = f.read()
+    _, st = os.waitpid(pid, 0)
+    if os.WIFSIGNALED(st):
+        return "crash", "signal %d" % os.WTERMSIG(st)
+    if os.WEXITSTATUS(st) != 0 or not data:
+        return "crash", "exit status %d" % os.WEXITSTATUS(st)
+    return pickle.loads(data)
